@@ -24,7 +24,7 @@ var Leaves = []reflect.Type{
 // Statics are the hand-written struct types (embedding, tags, recursion).
 var Statics = []reflect.Type{
 	T[EmbedVal](), T[EmbedPtr](), T[EmbedUnexpVal](), T[EmbedUnexpPtr](), T[EmbedConflict](), T[EmbedAmbiguous](), T[EmbedTaggedWins](), T[EmbedDeep](),
-	T[EmbedMarshaler](), T[EmbedTextMarshalerPtr](), T[EmbedNonStruct](), T[EmbedPtrNonStruct](), T[EmbedIface](), T[EmbedTwoPtr](), T[EmbedTagDepths](), T[DupTagDirect](), T[DupTagEmbedded](), T[NonASCIIKeys](), T[AddrMapThenSlice](), T[AddrSliceThenMap](), T[EmbedUnexpNonStructTagged](), T[MutRoot](), T[MutA](), T[Tags](), T[CaseFields](), T[Recursive](), T[Deep](),
+	T[EmbedMarshaler](), T[EmbedTextMarshalerPtr](), T[EmbedNonStruct](), T[EmbedPtrNonStruct](), T[EmbedIface](), T[EmbedTwoPtr](), T[EmbedTagDepths](), T[DupTagDirect](), T[DupTagEmbedded](), T[NonASCIIKeys](), T[AddrMapThenSlice](), T[AddrSliceThenMap](), T[EmbedUnexpNonStructTagged](), T[MutRoot](), T[MutA](), T[EmbedPtrOmit](), T[Tags](), T[CaseFields](), T[Recursive](), T[Deep](),
 }
 
 var mapKeys = []reflect.Type{T[string](), T[NamedString](), T[int](), T[int8](), T[uint64](), T[KeyT](), T[KeyPT](), T[bool](), T[float64](), T[VTInt](), T[VTString](), T[KeyMTOnly]()}
@@ -112,6 +112,24 @@ func Domain(t reflect.Type, depth int) []reflect.Value {
 	}
 	zero := reflect.Zero(t)
 	switch t {
+	case T[EmbedPtrOmit]():
+		// every combination of empty / non-empty promoted fields
+		one := 1
+		add(EmbedPtrOmit{X: 1, Y: "y"}, EmbedPtrOmit{})
+		for m := 0; m < 8; m++ {
+			in := &InnerOmit{Pad: 5}
+			if m&1 != 0 {
+				in.A = 7
+			}
+			if m&2 != 0 {
+				in.B = "b"
+			}
+			if m&4 != 0 {
+				in.C = []int{1}
+			}
+			add(EmbedPtrOmit{X: m, InnerOmit: in}, EmbedPtrOmit{Y: "y", InnerOmit: in, Z: &one})
+		}
+		return out
 	case T[RecPM]():
 		// self-referential: hand-written values
 		add(RecPM{RecPM{}}, RecPM(nil), RecPM{}, RecPM{nil, RecPM{RecPM{}}})
